@@ -631,6 +631,22 @@ func c16Check(ci any, o *core.Obs) {
 			}
 		}
 	}
+	// (8) Heights: the top of the first line and the bottom of the last one enclose every span from its
+	// ascent to its descent, and Bounds lies within them
+	top, bottom := t.Heights()
+	o.Decided(1)
+	for j, ln := range lines {
+		for _, s := range ln {
+			if s.face == nil || strings.TrimSpace(s.text) == "" {
+				continue
+			}
+			m := s.face.Metrics()
+			if ys[j]+m.Ascent > top+1e-6*(1+math.Abs(top)) || ys[j]-m.Descent < -bottom-1e-6*(1+math.Abs(bottom)) {
+				fail("heights", "Heights() = (top %.6g, bottom %.6g) does not enclose span %q of line %d: baseline y %.6g, ascent %.6g, descent %.6g", top, bottom, s.text, j, ys[j], m.Ascent, m.Descent)
+				return
+			}
+		}
+	}
 }
 
 func c16Str(c *c16Case, lines [][]c16Span) string {
